@@ -54,7 +54,7 @@ CONSTANTS
 None == -9
 NoEntry == [rem |-> None, ip |-> "-"]
 Slots == 1..MaxAtt
-Free == [st |-> "free", src |-> "-", dst |-> "-", via |-> "-", ab |-> FALSE, t |-> 0,
+Free == [st |-> "free", src |-> "-", dst |-> "-", via |-> "-", ab |-> "no", t |-> 0,
          f |-> 0, r |-> 0, fd |-> FALSE, rd |-> FALSE]
 
 VARIABLES
@@ -99,10 +99,19 @@ Inv(p, E) == Cardinality({c \in E : LinkPeer[att[c].src] = p}) + Cardinality({c 
 \* handshake buffers for every attempt in E
 CircAfter(E) == [p \in Peers |-> circ[p] - Inv(p, E)]
 TagHAfter(E) == [p \in Peers |-> IF Inv(p, E) > 0 /\ circ[p] - Inv(p, E) = 0 THEN FALSE ELSE tagH[p]]
-SvcAfter(E) == [spans |-> svc.spans - Cardinality(E),
-                msgs  |-> svc.msgs - 2 * Cardinality({c \in E : att[c].st = "hs"}),
-                sin   |-> svc.sin - Cardinality(E),
-                sout  |-> svc.sout - Cardinality(E)]
+\* what one attempt holds in the service scope.  ab = "conn": the source's connection closed during the
+\* handshake, the swarm reset the hop stream locally and with it released its scope (stream + 4096)
+Contrib(a) ==
+  CASE a.st = "free" -> [spans |-> 0, msgs |-> 0, sin |-> 0, sout |-> 0]
+    [] a.st = "hs" /\ a.ab = "conn" -> [spans |-> 1, msgs |-> 1, sin |-> 0, sout |-> 1]
+    [] a.st = "hs" -> [spans |-> 1, msgs |-> 2, sin |-> 1, sout |-> 1]
+    [] OTHER -> [spans |-> 1, msgs |-> 0, sin |-> 1, sout |-> 1]
+SumC(E, fld) ==
+  LET f[S \in SUBSET Slots] == IF S = {} THEN 0
+                               ELSE LET x == CHOOSE x \in S : TRUE IN Contrib(att[x])[fld] + f[S \ {x}]
+  IN f[E]
+SvcAfter(E) == [spans |-> svc.spans - SumC(E, "spans"), msgs |-> svc.msgs - SumC(E, "msgs"),
+                sin |-> svc.sin - SumC(E, "sin"), sout |-> svc.sout - SumC(E, "sout")]
 AttAfter(E) == [c \in Slots |-> IF c \in E THEN Free ELSE att[c]]
 
 Init ==
@@ -126,19 +135,25 @@ LinkUp(l) ==
   /\ op' = [name |-> "up", l |-> l]
   /\ UNCHANGED <<closed, ph, rsvp, cons, circ, tagR, tagH, svc, att, gl>>
 
-\* The connection closes: its streams are reset (every attempt/circuit using it ends with
-\* cleanup), Relay.disconnected runs (reservation dropped unless the peer is still Connected, i.e.
-\* has another non-limited connection; NO untag), the conn manager forgets the peer - and with it
-\* every tag - when its last connection is gone.
+\* The connection closes: the swarm resets its streams locally (a circuit using it ends with cleanup as
+\* soon as the relay touches the stream: at once when it is blocked reading it; an attempt still in the
+\* handshake whose SOURCE connection closed goes on until the destination answers), Relay.disconnected
+\* runs (reservation dropped unless the peer is still Connected, i.e. has another non-limited
+\* connection; NO untag), the conn manager forgets the peer - and with it every tag - when its last
+\* connection is gone.
 LinkDown(l) ==
   /\ "updown" \in Features
   /\ l \in up /\ l \notin Static
+  \* bound: not while a circuit only writes to (no longer reads from) a stream of this connection
+  /\ \A c \in Busy : att[c].st = "open" => ~(att[c].src = l /\ att[c].fd) /\ ~(att[c].via = l /\ att[c].rd)
   /\ LET p == LinkPeer[l]
          u2 == up \ {l}
-         E == {c \in Busy : att[c].src = l \/ att[c].via = l}
+         E == {c \in Busy : att[c].via = l \/ (att[c].st = "open" /\ att[c].src = l)}
+         A == {c \in Busy \ E : att[c].st = "hs" /\ att[c].src = l /\ att[c].ab # "conn"}
          drop == ~closed /\ DirectUp(p, u2) = {}
          gone == LinksOf(p, u2) = {}
          th == TagHAfter(E)
+         s1 == SvcAfter(E)
      IN /\ up' = u2
         /\ rsvp' = IF drop THEN [rsvp EXCEPT ![p] = None] ELSE rsvp
         /\ cons' = IF drop THEN ConsDrop(cons, p) ELSE cons
@@ -146,9 +161,10 @@ LinkDown(l) ==
         /\ circ' = CircAfter(E)
         /\ tagH' = IF gone THEN [th EXCEPT ![p] = FALSE] ELSE th
         /\ tagR' = IF gone THEN [tagR EXCEPT ![p] = FALSE] ELSE tagR
-        /\ svc' = SvcAfter(E)
-        /\ att' = AttAfter(E)
-        /\ op' = [name |-> "down", l |-> l, ended |-> E, dropped |-> (drop /\ rsvp[p] # None)]
+        /\ svc' = [s1 EXCEPT !.msgs = @ - Cardinality(A), !.sin = @ - Cardinality(A)]
+        /\ att' = [c \in Slots |-> IF c \in E THEN Free ELSE IF c \in A THEN [att[c] EXCEPT !.ab = "conn"] ELSE att[c]]
+        /\ op' = [name |-> "down", l |-> l, ended |-> E, cut |-> A, dropped |-> (drop /\ rsvp[p] # None),
+                  failed |-> {c \in E : att[c].st = "hs" /\ att[c].ab = "no"}]
   /\ UNCHANGED <<closed, ph>>
 
 -----------------------------------------------------------------------------
@@ -251,22 +267,22 @@ StopReply(c, kind) ==
   /\ att[c].st = "hs"
   /\ kind \in {"ok", "reset", "wrongtype", "nonok"}
   /\ kind # "ok" => kind \in Faults
-  /\ IF kind = "ok" /\ ~att[c].ab
+  /\ IF kind = "ok" /\ att[c].ab = "no"
      THEN /\ att' = [att EXCEPT ![c].st = "open", ![c].t = IF Limited THEN Duration ELSE 0]
           /\ svc' = [svc EXCEPT !.msgs = @ - 2]
           /\ UNCHANGED <<circ, tagH>>
           /\ op' = [name |-> "stop", c |-> c, kind |-> kind, status |-> "OK", ended |-> FALSE]
      ELSE /\ att' = AttAfter({c}) /\ svc' = SvcAfter({c}) /\ circ' = CircAfter({c}) /\ tagH' = TagHAfter({c})
           /\ op' = [name |-> "stop", c |-> c, kind |-> kind,
-                    status |-> IF att[c].ab THEN "none" ELSE "CONNECTION_FAILED", ended |-> TRUE]
+                    status |-> IF att[c].ab # "no" THEN "none" ELSE "CONNECTION_FAILED", ended |-> TRUE]
   /\ UNCHANGED <<up, closed, ph, rsvp, cons, tagR, gl>>
 
 \* the source resets its hop stream while the relay is waiting for the destination: the relay notices
 \* only when it writes its response
 ClientAbort(c) ==
   /\ "cabort" \in Features
-  /\ att[c].st = "hs" /\ ~att[c].ab
-  /\ att' = [att EXCEPT ![c].ab = TRUE]
+  /\ att[c].st = "hs" /\ att[c].ab = "no"
+  /\ att' = [att EXCEPT ![c].ab = "client"]
   /\ op' = [name |-> "cabort", c |-> c]
   /\ UNCHANGED <<up, closed, ph, rsvp, cons, circ, tagR, tagH, svc, gl>>
 
@@ -331,7 +347,7 @@ Tick ==
                                    ELSE IF att[c].st = "hs" \/ (att[c].st = "open" /\ Limited)
                                         THEN [att[c] EXCEPT !.t = @ - 1] ELSE att[c]]
         /\ op' = [name |-> "tick", gc |-> gcnow, collected |-> coll, ended |-> E,
-                  hs |-> {c \in E : att[c].st = "hs"}]
+                  hs |-> {c \in E : att[c].st = "hs" /\ att[c].ab = "no"}]
   /\ UNCHANGED <<up, closed>>
 
 \* Relay.Close: no further reservations, every reservation collected (and untagged)
@@ -407,16 +423,15 @@ CircuitSound ==
   \A c \in Busy :
      /\ Direct(att[c].src) /\ Direct(att[c].via)
      /\ <<att[c].src, att[c].dst>> \notin DenyConnect
-     /\ att[c].src \in up /\ att[c].via \in up /\ LinkPeer[att[c].via] = att[c].dst
+     /\ (att[c].ab # "conn" => att[c].src \in up) /\ att[c].via \in up /\ LinkPeer[att[c].via] = att[c].dst
      /\ LinkPeer[att[c].src] # att[c].dst
 
 MaxCircuits == \A p \in Peers : circ[p] <= MaxCirc
 
 \* Rollback: counters, hop tags and service-scope usage are exactly what the attempts in flight account for
 Rollback ==
-  /\ \A p \in Peers : circ[p] = Inv(p, Busy) /\ (tagH[p] <=> circ[p] > 0)
-  /\ svc.spans = Cardinality(Busy) /\ svc.sin = Cardinality(Busy) /\ svc.sout = Cardinality(Busy)
-  /\ svc.msgs = 2 * Cardinality({c \in Busy : att[c].st = "hs"})
+  /\ \A p \in Peers : circ[p] = Inv(p, Busy) /\ (tagH[p] => circ[p] > 0)
+  /\ svc = [spans |-> SumC(Busy, "spans"), msgs |-> SumC(Busy, "msgs"), sin |-> SumC(Busy, "sin"), sout |-> SumC(Busy, "sout")]
 
 \* the reservation tag goes with the reservation.
 \* EXPECTED TO FAIL (DESIGN section 9 item 8): disconnected() does not untag.
